@@ -29,8 +29,57 @@ class CutPath(Exception):
     pass
 
 
+class Pruned(Exception):
+    """the configuration at this poll was already expanded on another path (subsumed)"""
+
+
+MEMO_ENABLED = True
+MEMO = {}        # (spec id, canonical configuration at a poll entry) -> decision prefix of the first visitor
+
+
+def _walk(it, v, depth=0):
+    """canonical, hashable form of an interpreter value; raises KeyError('sym') on z3 terms"""
+    if depth > 40:
+        raise KeyError('deep')
+    if isinstance(v, (int, bool, str)) or v is None:
+        return v
+    if z3.is_expr(v):
+        raise KeyError('sym')
+    if isinstance(v, EnumC):
+        d = v.d
+        if isinstance(d, Sym):
+            d = it.keys.canon(d.name)
+        elif z3.is_expr(d):
+            raise KeyError('sym')
+        return ('E', v.ty, d)
+    if isinstance(v, Adt):
+        return ('A', v.ty, v.variant, tuple(_walk(it, x, depth + 1) for x in v.f))
+    if isinstance(v, VecV):
+        return ('V',) + tuple(_walk(it, x, depth + 1) for x in v.items)
+    if isinstance(v, Ref):
+        try:
+            return ('R', _walk(it, it.read(v.cell, v.path), depth + 1))
+        except (Panic, Unsupported):
+            return ('R', 'dangling')
+    if isinstance(v, Opaque):
+        return ('O', v.name)
+    from .values import MapV, IterV, Uninit
+    if isinstance(v, MapV):
+        return ('M',) + tuple((_walk(it, k, depth + 1), _walk(it, c.v, depth + 1)) for k, c in v.entries)
+    if isinstance(v, IterV):
+        return ('I', v.kind, _walk(it, v.a, depth + 1) if not isinstance(v.a, list) else tuple(_walk(it, x, depth + 1) for x in v.a),
+                _walk(it, v.b, depth + 1) if not isinstance(v.b, list) else None, v.c if isinstance(v.c, (int, bool)) or v.c is None else None)
+    if isinstance(v, Uninit):
+        return 'UNINIT'
+    if isinstance(v, (list, tuple)):
+        return tuple(_walk(it, x, depth + 1) for x in v)
+    raise KeyError('unknown')
+
+
 class LoopSpec:
-    def __init__(self, name, maps, alphabet, E=3, T=0, B=2, W=4, intr=1, faults=False, late=True, note=''):
+    def __init__(self, name, maps, alphabet, E=3, T=0, B=2, W=4, intr=1, faults=False, late=True, note='', C=99, memo=False):
+        self.C = C                   # max genuine time-outs (chords) per path
+        self.memo = memo             # subsume configurations at poll entries (idle configurations only)
         self.name = name
         self.maps = maps
         self.alphabet = alphabet     # keys an event may carry: ints or 'f0' (foreign symbolic non-modifier key)
@@ -122,6 +171,8 @@ class Env:
         self.sleeps = 0
         self.native_cons = []
         self.lates = []
+        self.ngenuine = 0
+        self.sid = None
 
     # ---- clock
     def now(self, it):
@@ -191,8 +242,18 @@ class Env:
         timeout = None if to.variant == 'None' else to.f[0].f[0]
         self.mon.on_poll(timeout)
         self.npoll += 1
+        if MEMO_ENABLED and sp.memo and self.mon.rep is None and not self.fault_done:
+            key = self.memo_key(it, timeout)
+            if key is not None:
+                first = MEMO.get(key)
+                mine = tuple(it.decisions[:it.dpos])
+                if first is None:
+                    MEMO[key] = mine
+                elif first != mine[:len(first)] or len(first) != len(mine):
+                    raise Pruned()
         opts = []
-        if self.npoll <= sp.W:
+        cap = sp.W if not sp.memo else 4 * (sp.E + sp.T + sp.C + sp.intr) + 8
+        if self.npoll <= cap:
             kleft = sp.E - self.nkey
             tleft = sp.T - self.ntab
             if getattr(sp, 'fixed_history', False):
@@ -207,12 +268,12 @@ class Env:
             if kleft >= 1 and tleft >= 1:
                 opts.append(('dev', ['K', 'T'], 1, 1))
                 opts.append(('dev', ['T', 'K'], 1, 1))
-            if timeout is not None or self.npoll <= 2:
+            if (timeout is not None and self.ngenuine < sp.C) or (timeout is None and (sp.memo or self.npoll <= 2)):
                 opts.append(('timeout',))
             if self.nintr < sp.intr:
                 opts.append(('intr',))
         opts.append(('gone', 0))
-        if self.npoll <= sp.W and sp.E - self.nkey >= 1:
+        if self.npoll <= cap and sp.E - self.nkey >= 1:
             opts.append(('gone', 1))
         o = opts[it.choose(len(opts))]
         if o[0] == 'dev':
@@ -226,6 +287,7 @@ class Env:
         if o[0] == 'timeout':
             genuine = timeout is not None
             if genuine:
+                self.ngenuine += 1
                 extra = z3.Int('late%d' % self.npoll)
                 it.assume(extra >= 0)
                 self.t = self.t + timeout + extra
@@ -246,8 +308,35 @@ class Env:
         self.mon.on_poll_return('dev')
         return ok(Adt('PollResult', 'DeviceEvent', [VecV([Adt('Device', 'Keyboard', [])])]))
 
+    def memo_key(self, it, timeout):
+        """canonical form of everything the future can depend on at this poll entry, or None if it holds clock terms"""
+        try:
+            frame = None
+            for fn, fr in it.frames:
+                if fn is F_LOOP:
+                    frame = (fn, fr)
+                    break
+            if frame is None:
+                return None
+            fn, fr = frame
+            named = []
+            for name in sorted(fn.debug):
+                for loc in fn.debug[name]:
+                    named.append((name, loc, _walk(it, fr[loc].v)))
+            mon = self.mon
+            if mon.expected or mon.chord_slot or mon.done:
+                return None
+            msum = (tuple(sorted(str(x) for x in mon.V)), tuple(sorted(str(x) for x in mon.Vexp)), mon.tablet, mon.saw_tablet,
+                    None if mon.P is None else tuple(str(x) for x in mon.P), mon.fault)
+            ref = _walk(it, mon.ref.m.v)
+            esum = (self.nkey, self.ntab, self.nintr, self.ngenuine, self.gone, tuple(self.Qk), tuple(self.Qt), timeout is None,
+                    min(self.npoll, 10 ** 6) if not self.spec.memo else 0)
+            return (self.sid, tuple(named), msum, ref, esum)
+        except KeyError:
+            return None
+
     def next_keyboard(self, it):
-        if not self.Qk and not self.gone and self.spec.late and self.nkey < self.spec.E and self.npoll <= self.spec.W:
+        if not self.Qk and not self.gone and self.spec.late and self.nkey < self.spec.E:
             if it.choose(2) == 1:
                 self.new_key_event()      # a late arrival while the loop is draining
         if self.Qk:
@@ -294,16 +383,17 @@ def root_theory(spec):
     return kt
 
 
-def run_path(spec, decisions, cut_at=None):
+def run_path(spec, decisions, cut_at=None, sid=None):
     """one path of the loop under the symbolic environment. returns dict(outcome...)"""
     it = Interp(mapper.PROG, decisions, keys=root_theory(spec))
     it.cut_at = cut_at
     env = Env(it, spec)
+    env.sid = id(spec) if sid is None else sid
     it.env = env
     for o in spec.opaques():
         it.assume(o.term >= 0)      # delay/interval in [0, 2^31): the documented non-negative range
     lay = mapper.layout_val(mapper.Spec('loop', [dict(m) for m in spec.maps]))
-    out = {'viol': None, 'panic': None, 'cut': False}
+    out = {'viol': None, 'panic': None, 'cut': False, 'pruned': False}
     try:
         if cut_at is not None:
             _install_cut(it, cut_at)
@@ -318,6 +408,8 @@ def run_path(spec, decisions, cut_at=None):
         out['panic'] = str(e)
     except CutPath:
         out['cut'] = True
+    except Pruned:
+        out['pruned'] = True
     except PathInfeasible:
         out['infeasible'] = True
     out['it'] = it
@@ -422,10 +514,14 @@ def _w_unit(arg):
     samples = []
     while work:
         d = work.pop()
-        o = run_path(spec, d)
+        o = run_path(spec, d, sid=sid)
         it, env = o['it'], o['env']
         work.extend(it.new_branches)
         if o.get('infeasible'):
+            continue
+        if o.get('pruned'):
+            stats['subsumed'] = stats.get('subsumed', 0) + 1
+            stats['mir_steps'] += it.steps
             continue
         stats['paths'] += 1
         stats['mir_steps'] += it.steps
@@ -454,6 +550,16 @@ def _w_unit(arg):
 
 def make_units(spec, sid, cut_at):
     """split the decision tree into work units (decision prefixes of length cut_at)"""
+    global MEMO_ENABLED
+    MEMO_ENABLED = False
+    try:
+        return _make_units(spec, sid, cut_at)
+    finally:
+        MEMO_ENABLED = True
+        MEMO.clear()
+
+
+def _make_units(spec, sid, cut_at):
     units = []
     work = [[]]
     done_paths = 0
@@ -681,7 +787,7 @@ def run(tier, seed):
     spec_map = {i: s for i, s in enumerate(specs)}
     units = []
     for i, s in spec_map.items():
-        us = make_units(s, i, 5 if not getattr(s, 'fixed_history', False) else 2)
+        us = make_units(s, i, (4 if s.memo else 5) if not getattr(s, 'fixed_history', False) else 2)
         for u in us:
             units.append((i, u))
     random.Random(seed).shuffle(units)
